@@ -125,4 +125,102 @@ theorem nameMatches_none (a b : List Nat) : nameMatches a b = none ↔ SingleEqu
       · have : ¬ y = x := fun e => h e.symm
         simp [h, this]
 
+/-! bridging the executable spec (`conformsB`) and the propositional one -/
+
+theorem withinValidityB_iff (c : Cert) : withinValidityB c = true ↔ WithinValidity c := by
+  simp [withinValidityB, WithinValidity]
+
+theorem singleEqualB_iff (a b : List Nat) : singleEqualB a b = true ↔ SingleEqual a b := by
+  unfold singleEqualB SingleEqual
+  split
+  · rename_i v w
+    simp only [beq_iff_eq]
+    constructor
+    · rintro rfl; exact ⟨v, rfl, rfl⟩
+    · rintro ⟨u, h1, h2⟩; injection h1 with h1; injection h2 with h2; omega
+  · rename_i h
+    simp only [Bool.false_eq_true, false_iff]
+    rintro ⟨u, rfl, rfl⟩
+    exact h u u rfl rfl
+
+theorem extGoodB_iff (role : Role) (c : Cert) (e : Ext) : extGoodB role c e = true ↔ ExtGood role c e := by
+  unfold extGoodB ExtGood
+  cases hid : e.id <;> simp only [beq_iff_eq]
+  · -- eku
+    cases hp : e.payload <;> simp
+  · -- crldp
+    cases hp : e.payload <;> simp
+    intro _
+    constructor
+    · intro h p hp; have := h p hp; simp_all
+    · intro h p hp; have := h p hp; simp_all
+
+theorem isDisallowed_iff (i : ExtId) : isDisallowed i = false ↔ ∀ n, i ≠ .disallowed n := by
+  cases i <;> simp [isDisallowed]
+
+theorem profileOkB_iff (role : Role) (c : Cert) : profileOkB role c = true ↔ ProfileOk role c := by
+  unfold profileOkB ProfileOk
+  simp only [Bool.and_eq_true, List.all_eq_true, Bool.not_eq_true', isDisallowed_iff, Bool.or_eq_true,
+    List.contains_iff_mem, List.any_eq_true, beq_iff_eq, ← extGoodB_iff]
+  constructor
+  · rintro ⟨⟨⟨h1, h2⟩, h3⟩, h4⟩
+    refine ⟨h1, fun e he hn => ?_, h3, fun e he hr => ?_⟩
+    · rcases h2 e he with h | h; exact absurd h hn; exact h
+    · rcases h4 e he with h | h
+      · simp [hr] at h
+      · exact h
+  · rintro ⟨h1, h2, h3, h4⟩
+    refine ⟨⟨⟨h1, fun e he => ?_⟩, h3⟩, fun e he => ?_⟩
+    · by_cases hr : e.id ∈ requiredIds role
+      · exact Or.inl hr
+      · exact Or.inr (h2 e he hr)
+    · by_cases hr : e.id ∈ requiredIds role
+      · exact Or.inr (h4 e he hr)
+      · left; simpa using hr
+
+theorem anchorsB_iff (leaf : Cert) (p : Purpose) (a : Anchor) : anchorsB leaf p a = true ↔ Anchors leaf p a := by
+  simp [anchorsB, Anchors, withinValidityB_iff, and_assoc]
+
+theorem checkValidity_isEmpty (c : Cert) : (checkValidity c).isEmpty = withinValidityB c := by
+  unfold checkValidity withinValidityB
+  by_cases h1 : c.notAfter < 0 <;> by_cases h2 : c.notBefore > 0 <;> simp [h1, h2] <;> omega
+
+theorem candidates_eq (leaf : Cert) (anchors : List Anchor) (p : Purpose) :
+    candidates leaf anchors p = (anchors.filter (anchorsB leaf p)).map (·.cert) := by
+  unfold candidates
+  simp only [List.filter_filter]
+  induction anchors with
+  | nil => rfl
+  | cons a l ih =>
+    simp only [List.filterMap_cons, List.filter_cons]
+    by_cases hp : a.purpose = p
+    · simp only [hp, if_true, List.filter_cons]
+      by_cases hc : anchorsB leaf p a = true
+      · have hc' := hc
+        simp only [anchorsB, Bool.and_eq_true, beq_iff_eq] at hc'
+        obtain ⟨⟨⟨⟨_, h1⟩, h2⟩, h3⟩, h4⟩ := hc'
+        have h4' : (checkValidity a.cert).isEmpty = true := by rw [checkValidity_isEmpty]; exact h4
+        simp [hc, h1, h2, h3, h4', ih]
+      · have hc' : ((checkValidity a.cert).isEmpty && (issuerSigned leaf a.cert && (keyIdentifierCheck a.cert leaf && decide (a.cert.subject = leaf.issuer)))) = false := by
+          rw [checkValidity_isEmpty]
+          simp only [anchorsB, hp, beq_self_eq_true, Bool.true_and, Bool.not_eq_true] at hc
+          cases h1 : decide (a.cert.subject = leaf.issuer) <;> cases h2 : keyIdentifierCheck a.cert leaf <;>
+            cases h3 : issuerSigned leaf a.cert <;> cases h4 : withinValidityB a.cert <;> simp_all
+        simp [hc, hc', ih]
+    · have : anchorsB leaf p a = false := by simp [anchorsB, hp]
+      simp [hp, this, ih]
+
+theorem candidates_cons_iff (leaf : Cert) (anchors : List Anchor) (p : Purpose) (P : Cert → Prop) :
+    (∃ i r, candidates leaf anchors p = i :: r ∧ P i) ↔
+    ∃ a, anchors.find? (anchorsB leaf p) = some a ∧ P a.cert := by
+  rw [candidates_eq]
+  induction anchors with
+  | nil => simp
+  | cons a l ih =>
+    by_cases h : anchorsB leaf p a = true
+    · simp [List.filter_cons, h]
+    · simp only [List.filter_cons, List.find?_cons, h]
+      simpa using ih
+
+
 end IsoMdl.X509
